@@ -35,14 +35,6 @@ Definition ev_ok (c : cfg) (e : event) : Prop :=
 Definition heap_ok (c : cfg) (h : heap) : Prop :=
   NoDup (ids (live h)) /\ (forall x, In x (live h) -> fst x < next h) /\ badfree h = 0 /\ Forall (ev_ok c) (trace h).
 
-Definition inv (c : cfg) (m : mgr) (h : heap) : Prop :=
-  Permutation (live h) (blocks c m) /\ heap_ok c h /\ m_total m = sumsz (blocks c m).
-
-Definition st_inv (c : cfg) (s : st) : Prop :=
-  match s_mgr s with
-  | Some m => inv c m (s_heap s)
-  | None => live (s_heap s) = [] /\ heap_ok c (s_heap s)
-  end.
 
 (* ------------------------------------------------------------ list lemmas *)
 Lemma sumsz_perm : forall a b, Permutation a b -> sumsz a = sumsz b.
@@ -190,13 +182,29 @@ Proof.
       apply negb_true_iff. apply Z.eqb_neq. lia.
 Qed.
 
+(* ------------------------------------------------------------------------ *)
+(* The invariant, relative to a FRAME F of live blocks that belong to somebody else
+   (another manager, the TurboJPEG instance struct): the operations never touch F. *)
+Section Frame.
+Variable F : list (Z * Z).
+
+Definition inv (c : cfg) (m : mgr) (h : heap) : Prop :=
+  Permutation (live h) (blocks c m ++ F) /\ heap_ok c h /\ m_total m = sumsz (blocks c m).
+
+Definition st_inv (c : cfg) (s : st) : Prop :=
+  match s_mgr s with
+  | Some m => inv c m (s_heap s)
+  | None => Permutation (live (s_heap s)) F /\ heap_ok c (s_heap s)
+  end.
+
 (* ------------------------------------------------- invariant: basic moves *)
 Lemma inv_add : forall c m h m' h' id sz,
   inv c m h -> heap_ok c h' -> live h' = (id, sz) :: live h ->
   Permutation ((id, sz) :: blocks c m) (blocks c m') -> m_total m' = m_total m + sz -> inv c m' h'.
 Proof.
   intros c m h m' h' id sz (HP & _ & HT) Hok Hl HB Ht. split; [|split]; auto.
-  - rewrite Hl. eapply perm_trans; [apply perm_skip; exact HP | exact HB].
+  - rewrite Hl. eapply perm_trans; [apply perm_skip; exact HP |].
+    change ((id, sz) :: blocks c m ++ F) with (((id, sz) :: blocks c m) ++ F). apply Permutation_app_tail. exact HB.
   - rewrite Ht, HT. apply sumsz_perm in HB.
     change (sumsz ((id, sz) :: blocks c m)) with (sz + sumsz (blocks c m)) in HB. lia.
 Qed.
@@ -456,16 +464,17 @@ Proof.
 Qed.
 
 (* freeing the pools F (all owned by the manager) leaves exactly the blocks of K *)
-Lemma free_list_inv : forall c m h F K h' t',
-  inv c m h -> Permutation (blocks c m) (map (recblk c) F ++ blocks c K) ->
-  free_list c F h (m_total m) = (h', t') -> m_total K = t' -> inv c K h'.
+Lemma free_list_inv : forall c m h F0 K h' t',
+  inv c m h -> Permutation (blocks c m) (map (recblk c) F0 ++ blocks c K) ->
+  free_list c F0 h (m_total m) = (h', t') -> m_total K = t' -> inv c K h'.
 Proof.
-  intros c m h F K h' t' (HP & (Hn & Hfr & Hb & Htr) & HT) HB HF HK.
-  assert (HP2 : Permutation (live h) (map (recblk c) F ++ blocks c K)) by (eapply perm_trans; eauto).
-  assert (HN2 : NoDup (ids (map (recblk c) F ++ blocks c K))).
+  intros c m h F0 K h' t' (HP & (Hn & Hfr & Hb & Htr) & HT) HB HF HK.
+  assert (HP2 : Permutation (live h) (map (recblk c) F0 ++ (blocks c K ++ F))).
+  { eapply perm_trans; [exact HP|]. rewrite app_assoc. apply Permutation_app_tail. exact HB. }
+  assert (HN2 : NoDup (ids (map (recblk c) F0 ++ (blocks c K ++ F)))).
   { eapply Permutation_NoDup; [apply Permutation_map; exact HP2 | exact Hn]. }
   unfold ids in HN2. rewrite map_app in HN2. apply nodup_app_iff in HN2. destruct HN2 as (HNF & _ & _).
-  fold (ids (map (recblk c) F)) in HNF. rewrite ids_recblk in HNF.
+  fold (ids (map (recblk c) F0)) in HNF. rewrite ids_recblk in HNF.
   eapply free_list_spec in HF; eauto.
   2: { intros i Hi. rewrite <- ids_recblk with (c := c) in Hi.
        eapply Permutation_in; [apply Permutation_sym; apply Permutation_map; exact HP2|].
@@ -516,7 +525,7 @@ Proof.
 Qed.
 
 Lemma self_destruct_spec : forall c m h,
-  inv c m h -> live (self_destruct c m h) = [] /\ heap_ok c (self_destruct c m h).
+  inv c m h -> Permutation (live (self_destruct c m h)) F /\ heap_ok c (self_destruct c m h).
 Proof.
   intros c m h Hi. unfold self_destruct.
   destruct (free_pool c m h 1) as [[m1 h1] e1] eqn:E1.
@@ -529,17 +538,26 @@ Proof.
   destruct Hi2 as (HP & (Hn & Hfr & Hb & Htr) & HT).
   assert (HB : blocks c m2 = [(m_blk m2, c_mgr c)]).
   { unfold blocks, pools_of. rewrite B1, B2, B4, B5, A1, A2. reflexivity. }
-  rewrite HB in HP. apply Permutation_sym in HP. apply Permutation_length_1_inv in HP.
-  unfold free. simpl. rewrite HP. unfold remove_id, id_live. simpl. rewrite Z.eqb_refl. simpl.
-  split; auto. unfold heap_ok. simpl.
-  repeat split; auto. constructor. intros x []. constructor; simpl; auto.
+  rewrite HB in HP.
+  assert (Hin : id_live (m_blk m2) (live h2) = true).
+  { apply id_live_in. unfold ids. eapply Permutation_in; [apply Permutation_sym; apply Permutation_map; exact HP|]. simpl. auto. }
+  assert (HR : Permutation (remove_id (m_blk m2) (live h2)) F).
+  { pose proof (perm_remove (live h2) [(m_blk m2, c_mgr c)] F HP Hn) as P.
+    unfold remove_id.
+    rewrite (filter_ext _ (fun x => negb (zmem (fst x) (ids [(m_blk m2, c_mgr c)])))); [exact P|].
+    intros a. unfold zmem. simpl. rewrite orb_false_r. reflexivity. }
+  unfold free. simpl. rewrite Hin.
+  split; auto. unfold heap_ok; simpl. repeat split; auto.
+  - unfold remove_id. apply nodup_ids_filter. auto.
+  - intros x Hx. unfold remove_id in Hx. apply filter_In in Hx. apply Hfr; tauto.
+  - constructor; simpl; auto.
 Qed.
 
 Lemma jinit_inv : forall c h om h' e,
-  cfg_wf c -> live h = [] -> heap_ok c h -> jinit_memory_mgr wid c h = (om, h', e) ->
+  cfg_wf c -> Permutation (live h) F -> heap_ok c h -> jinit_memory_mgr wid c h = (om, h', e) ->
   match om with
   | Some m => inv c m h'
-  | None => live h' = [] /\ heap_ok c h'
+  | None => Permutation (live h') F /\ heap_ok c h'
   end /\ e <> Some OutOfFuel.
 Proof.
   intros c h om h' e Hc Hl Hok H. unfold jinit_memory_mgr in H.
@@ -547,9 +565,9 @@ Proof.
   destruct (malloc h (wid (c_mgr c))) as [h1 [id|]] eqn:EM; eapply malloc_ok in EM; eauto; destruct EM as (Hok1 & Hl1);
     inversion H; subst; split; try congruence.
   - split; [|split]; auto.
-    + rewrite Hl1, Hl. unfold blocks, pools_of, wid. simpl. apply Permutation_refl.
+    + rewrite Hl1. unfold blocks, pools_of, wid. simpl. apply perm_skip. exact Hl.
     + unfold blocks, pools_of. simpl. lia.
-  - split; auto. congruence.
+  - split; auto. rewrite Hl1. exact Hl.
 Qed.
 
 (* ------------------------------------------------- the whole client level *)
@@ -576,13 +594,15 @@ Proof.
     destruct (jinit_memory_mgr wid c h) as [[om h1] e1] eqn:E. apply jinit_inv in E; auto.
 Qed.
 
-Lemma init_st_inv : forall c oracle, st_inv c (init_st oracle).
-Proof.
-  intros. unfold st_inv, init_st, empty_heap, heap_ok; simpl. repeat split; auto. constructor. intros x [].
-Qed.
-
 Theorem run_inv : forall c ops s, cfg_wf c -> st_inv c s -> st_inv c (run wid c ops s).
 Proof.
   induction ops as [|o r IH]; intros s Hc Hs; simpl; auto.
   apply IH; auto. apply step_inv; auto.
+Qed.
+
+End Frame.
+
+Lemma init_st_inv : forall c oracle, st_inv [] c (init_st oracle).
+Proof.
+  intros. unfold st_inv, init_st, empty_heap, heap_ok; simpl. repeat split; auto. constructor. intros x [].
 Qed.
